@@ -1,7 +1,7 @@
 #!/usr/bin/env python3
 """Confirm a seeded property-breaking change and record it under /verif/seeded/<ID>-<X>/.
 
-usage: tools/verify_seed.py <ID> <X> [--checks C01,C02] [--tier quick]
+usage: tools/verify_seed.py <ID> <X> [--checks C01,C02] [--tier quick] [--root /tmp/seed2 --tag r2]
 
 For /tmp/seed/<ID>/{X.diff, demo_X.py, meta_X.json} and the scratch worktree /tmp/seed/<ID>/wt:
   1. worktree clean -> demo must exit 0
@@ -32,7 +32,13 @@ def main():
         checks = sys.argv[sys.argv.index("--checks") + 1].split(",")
     if "--tier" in sys.argv:
         tier = sys.argv[sys.argv.index("--tier") + 1]
-    base = f"/tmp/seed/{pid}"
+    root = "/tmp/seed"
+    tag = ""
+    if "--root" in sys.argv:
+        root = sys.argv[sys.argv.index("--root") + 1]
+    if "--tag" in sys.argv:
+        tag = sys.argv[sys.argv.index("--tag") + 1] + "-"
+    base = f"{root}/{pid}"
     wt = f"{base}/wt"
     diff, demo, meta = f"{base}/{x}.diff", f"{base}/demo_{x}.py", f"{base}/meta_{x}.json"
     out = {"property": pid, "variant": x, "ran": []}
@@ -72,7 +78,7 @@ def main():
         out["author_meta"] = {"error": str(e)}
     out["needs"] = out["author_meta"].get("needs")
     out["what"] = out["author_meta"].get("what")
-    dst = f"/verif/seeded/{pid}-{x}"
+    dst = f"/verif/seeded/{pid}-{tag}{x}"
     if ok:
         os.makedirs(dst, exist_ok=True)
         shutil.copy(diff, f"{dst}/patch.diff")
